@@ -196,6 +196,9 @@ def diagOK : Op K (X → K) → Bool
 
 def isChainOp : Op K (X → K) → Bool | .chain _ => true | _ => false
 
+/-- summands of a SumOperator: diagonal transformations in range, not a block-diagonal operator (chains are fine) -/
+def okS (o : Op K (X → K)) : Bool := diagOK o && !isBlock o
+
 /-- diagonal transformations in range, not a block-diagonal operator, not a (nested) chain -/
 def okC (o : Op K (X → K)) : Bool := diagOK o && !isBlock o && !isChainOp o
 
